@@ -316,6 +316,11 @@ class ResTracker(Tracker):
                         r0 = dict(vars_).get(d)
                         if r0 not in (None, "N"):
                             link = r0
+                # the same acquisition site executed again (a loop) while the object of its previous execution is still
+                # owned and reachable only through the variable being assigned: that object is lost
+                if rd.get(rid) == "O" and link != rid and cur == rid and \
+                        not [d for d, r in vars_ if r == rid and d != decl]:
+                    self.overwrites.append((rid, self.ptr_locals.get(decl), node, ctx.trace()))
                 rd[rid] = ("M", link) if link is not None else "M"
                 res = frozenset(rd.items())
                 newref = rid
